@@ -138,6 +138,10 @@ def step (s : St) : List String → St × String
       ({ s with nodes := { kind := k, hostname := host, power := st, startUp := sud, shutDown := sdd, dns := dns, gateway := gw,
                            ip := ip, mask := mask, numPorts := np } :: s.nodes }, "ok")
     | _, _, _, _, _, _, _, _, _ => (s, "bad-op")
+  | ["nodescan", k] =>
+    match k.toNat? with
+    | some k => updNode s fun n => { n with scan := some k }
+    | none => (s, "bad-op")
   | ["port", k, ip, mask] =>
     match k.toNat?, parseIp ip, parseOpt parseIp mask with
     | some k, some ip, some mask => updNode s fun n => { n with ports := n.ports ++ [(k, { ip := ip, mask := mask })] }
